@@ -290,6 +290,14 @@ def run_case(case):
                 n_cyc += got_cyc
                 if j == sel and zone == "padding":
                     mon.count("padding_zone_not_asserted")
+                    if got_cyc and not w["sparse"]:
+                        # selection itself is not asserted here, but a selected subordinate "receives the offset
+                        # within its window as address": a padding offset does not fit its address lines
+                        off = adr - w["w"][0]
+                        mon.eq("fwd_adr_padding", getv(ctx, sub.adr) if len(sub.adr) else 0, off,
+                               f"subordinate {j} is selected in its padding at bus adr {adr} and cannot be handed offset {off}")
+                    else:
+                        mon.count("fwd_adr_padding")
                     continue
                 exp_cyc = req["cyc"] if j == sel else 0
                 mon.eq("sel_cyc", got_cyc, exp_cyc,
